@@ -40,6 +40,10 @@ AbstractParameterAliasable& AbstractParameterAliasable::operator=(const Abstract
 {
   AbstractParametrizable::operator=(ap);
 
+  // Forget the previous independent parameters and alias listeners, which refer to the replaced parameters:
+  independentParameters_.reset();
+  aliasListenersRegister_.clear();
+
   for (size_t i = 0; i < ap.independentParameters_.size(); i++)
   {
     independentParameters_.shareParameter(getParameter(getParameterNameWithoutNamespace(ap.independentParameters_[i].getName())));
